@@ -13,6 +13,7 @@ from concurrent.futures import ThreadPoolExecutor
 from . import facts as factsmod
 
 VERIF = factsmod.VERIF
+WORKERS = 6
 
 
 def _one(args):
@@ -27,7 +28,9 @@ def _one(args):
     if r.returncode != 0:
         shutil.rmtree(work, ignore_errors=True)
         return {"mutant": name, "status": "skipped", "why": "does not apply to the current tree"}
-    env = dict(os.environ, VERIF_REPO=work, VERIF_EVIDENCE_DIR=os.path.join(tmp, "ev%d" % i), VERIF_SELFTEST_CHILD="1")
+    # one fact cache (and cargo target directory) per worker slot: the workers do not queue on the extraction lock
+    env = dict(os.environ, VERIF_REPO=work, VERIF_EVIDENCE_DIR=os.path.join(tmp, "ev%d" % i), VERIF_SELFTEST_CHILD="1",
+               VERIF_CACHE=os.path.join(tmp, "cache%d" % (i % WORKERS)))
     c = subprocess.run([os.path.join(VERIF, "check"), prop, "--tier", "quick"], cwd=VERIF, env=env, capture_output=True, text=True)
     shutil.rmtree(work, ignore_errors=True)
     keys = [l.strip() for l in c.stdout.splitlines() if " | " in l and "] " in l]
@@ -81,7 +84,7 @@ def run(prop):
             diffs.append(d)
     tmp = tempfile.mkdtemp(prefix="verif-selftest-")
     try:
-        with ThreadPoolExecutor(max_workers=4) as ex:
+        with ThreadPoolExecutor(max_workers=WORKERS) as ex:
             res = list(ex.map(_one, [(prop, d, tmp, i) for i, d in enumerate(diffs)]))
     finally:
         shutil.rmtree(tmp, ignore_errors=True)
